@@ -271,7 +271,7 @@ class Program:
             from . import inline as _inline_mod
             _inline_mod.ENUM_CLASSES.clear()
             _inline_mod.ENUM_CLASSES.update(ci.name for ci in self.classes.values() if any(b.rsplit('.', 1)[-1] in ('Enum', 'IntEnum', 'StrEnum', 'Flag') for b in ci.bases))
-            from .inline import Inliner, load_reference, normalise_projected_loops, normalise_result_temps, normalise_branch_results, normalise_parameter_temps, normalise_singleton_generators, normalise_optional_flags, record_classes_of, normalise_record_reads, normalise_record_fields, normalise_record_objects, normalise_attribute_loops, normalise_class_constants, normalise_enum_values, normalise_local_tables, normalise_record_classes, normalise_compiled_patterns, normalise_literal_loops, normalise_module_constants, normalise_small_quantifiers
+            from .inline import Inliner, load_reference, normalise_duplicate_locals, normalise_projected_loops, normalise_result_temps, normalise_branch_results, normalise_parameter_temps, normalise_singleton_generators, normalise_optional_flags, record_classes_of, normalise_record_reads, normalise_record_fields, normalise_record_objects, normalise_attribute_loops, normalise_class_constants, normalise_enum_values, normalise_local_tables, normalise_record_classes, normalise_compiled_patterns, normalise_literal_loops, normalise_module_constants, normalise_small_quantifiers
             ref = load_reference()
             self._record_tables: dict[str, dict] = {}
             all_records: dict = {}
@@ -314,6 +314,7 @@ class Program:
                         self._count('normalise_parameter_temps', normalise_parameter_temps(fi.node))
                         self._count('normalise_branch_results', normalise_branch_results(fi.node))
                         self._count('normalise_result_temps', normalise_result_temps(fi.node))
+                        self._count('normalise_duplicate_locals', normalise_duplicate_locals(fi.node))
                         self._count('normalise_optional_flags', normalise_optional_flags(fi.node))
                         self._count('normalise_local_generators', normalise_local_generators(fi.node))
                         self._count('normalise_singleton_generators', normalise_singleton_generators(fi.node))
